@@ -1,4 +1,4 @@
-\* generation (thorough): every continuation of length 3 of each prefix
+\* generation (thorough): every continuation of length 3 of three prefixes (handle copies of one view; two reservations of a pool; buffer + pool)
 SPECIFICATION Spec
 CONSTANTS
   SlotSeq <- StdSlots
@@ -11,5 +11,5 @@ CONSTANTS
   MaxObj = 14
   MaxHist = 3
   SwapImpl = "rings"
-  Profiles <- GenProfiles
+  Profiles <- GenDeep
 CONSTRAINT PrefixOK
